@@ -268,11 +268,37 @@ def map_update(ex, ins):
 
 
 def range_(ex, ins):
-    raise Unsupported('range over map/string')
+    xtd = ex.prog.under(ins['x']['t'])
+    if xtd['k'] != 'map':
+        raise Unsupported('range over string')
+    ex.vals[ins['n']] = ('mapiter', ex.val(ins['x']), ins['x']['t'])
 
 
 def next_(ex, ins):
-    raise Unsupported('range iteration')
+    """one step of a map iteration: either the end, or some entry that the map holds now (order unspecified)"""
+    vc = ex.vc
+    it = ex.vals.get(ins['iter']['n'])
+    if ins.get('isstring') or not (isinstance(it, tuple) and it[0] == 'mapiter'):
+        raise Unsupported('range iteration over a string')
+    _, m, mts = it
+    xtd = ex.prog.under(mts)
+    ks = vc.sort_of(xtd['key'])
+    vs = vc.sort_of(xtd['elem'])
+    hn = 'M.%s.%s' % (san(ks), san(vs))
+    hs_has = 'Arr:Map:%s>Bool' % ks
+    hs_val = 'Arr:Map:%s>%s' % (ks, vs)
+    vc.heap_sorts[hn + '.has'] = hs_has
+    vc.heap_sorts[hn + '.val'] = hs_val
+    ok = vc.declare(ex.nm(ins['n'] + '$ok'), 'Bool')
+    k = vc.declare(ex.nm(ins['n'] + '$k'), ks)
+    v = vc.declare(ex.nm(ins['n'] + '$v'), vs)
+    has = '(select (select %s %s) %s)' % (ex.st.get(hn + '.has', hs_has), m.term, k)
+    val = '(select (select %s %s) %s)' % (ex.st.get(hn + '.val', hs_val), m.term, k)
+    vc.assume(imp(ok, and_(not_(eq(m.term, '0')), has, eq(v, val))), ex.reach)
+    kv, vv = V(k, ks, xtd['key']), V(v, vs, xtd['elem'])
+    vc.range_assume(kv, ex.reach)
+    vc.range_assume(vv, ex.reach)
+    ex.vals[ins['n']] = [V(ok, 'Bool', 'bool'), kv, vv]
 
 
 # ---- builtins ----------------------------------------------------------------------------------------------
